@@ -219,6 +219,12 @@ def vmReset : VM Unit :=
     let pg := s.pg.reset
     { s with pg := { pg with menu := { (Menu.new s.sep) with hasRs := true } } }
 
+/-- what `Vm.Run` does to the renderer when execution resumes after a HALT: `vm.Reset()` (a new menu with the
+configured separator, page reset) and `pg.WithError(nil)` -/
+def resumeReset (s : VmSt) : VmSt :=
+  let pg := s.pg.reset
+  { s with pg := { pg with err := none, menu := { (Menu.new s.sep) with hasRs := true } }, errOpaque := false }
+
 def moveCatchCode : Bytes := newLine Facts.opMOVE [catchSym] none none
 
 /-- `rs.GetCode(ctx, sym)`; the harness resource's message is `nocode <sym>` -/
@@ -449,8 +455,8 @@ def runLoop (env : Env) : Nat → Option Bytes → Bytes → VM Bytes
     let lang := if change then (match s.st.language with | some l => some l | none => lang) else lang
     let waitChange ← resetFlagM Facts.waitFlag
     let _ ← (if waitChange then resetFlagM Facts.inmatchFlag else pure false)
-    -- pg.Reset(); pg.WithError(nil) (fix: commit 0861976); mn.Reset()
-    modify fun s => if waitChange then { s with pg := { s.pg.reset with err := none }, errOpaque := false } else s
+    -- vm.Reset(); pg.WithError(nil) (fix: commits 0861976, 946bec9: the whole renderer, menu included, is re-created)
+    modify fun s => if waitChange then resumeReset s else s
     let _ ← setFlagM Facts.dirtyFlag
     match opSplit b with
     | .err k => fail k (ascii "decode")
